@@ -11,6 +11,7 @@ import (
 	"runtime/debug"
 	"strings"
 	"time"
+	"unicode"
 
 	astisub "github.com/asticode/go-astisub"
 	"verif/harness/fw"
@@ -200,6 +201,65 @@ func outPath(r *fw.Rand, in, fresh string) string {
 	}
 	os.Remove(fresh)
 	return fresh
+}
+
+// Unicode sweep of the text codecs: every block of 256 code points is written as the text of cues (32 characters to
+// a cue, one run) and read back; each cue must come back with exactly its text. White space, controls, surrogates,
+// the two noncharacters XML forbids and the few ASCII characters with a meaning in the format's markup are left out
+// (the random models cover those). quick: the 256 blocks of the BMP and one block of every other plane; thorough: all.
+func sweepBlocks(tier string) int64 { return tierN(tier, 256+16, 0x1100) }
+
+func sweepBlock(tier string, k int64) int {
+	if tier == "thorough" || k < 256 {
+		return int(k)
+	}
+	return int(k-256+1)*256 + int(k%7)*31 // a block of plane 1..16
+}
+
+func sweepCase(c *fw.Ctx, k int64, format, skip string, write func(*astisub.Subtitles, *bytes.Buffer) error, read func([]byte) (*astisub.Subtitles, error)) fw.Outcome {
+	block := sweepBlock(c.Tier, k)
+	s := astisub.NewSubtitles()
+	var want []string
+	for q := 0; q < 8; q++ {
+		var b strings.Builder
+		for j := 0; j < 32; j++ {
+			r := rune(block*256 + q*32 + j)
+			if r > 0x10ffff || (r >= 0xd800 && r < 0xe000) || r == 0xfffe || r == 0xffff || unicode.IsSpace(r) || unicode.IsControl(r) || strings.ContainsRune(skip, r) {
+				continue
+			}
+			b.WriteRune(r)
+		}
+		if b.Len() == 0 {
+			continue
+		}
+		want = append(want, b.String())
+		s.Items = append(s.Items, textItem(time.Duration(len(want))*time.Second, time.Duration(len(want)+1)*time.Second, b.String()))
+	}
+	key := fw.Mix(fw.HashString(format), uint64(block), 0x5eeb)
+	if len(want) == 0 {
+		return fw.Skip()
+	}
+	var buf bytes.Buffer
+	var err error
+	var got *astisub.Subtitles
+	if p := guard(func() {
+		if err = write(s, &buf); err == nil {
+			got, err = read(buf.Bytes())
+		}
+	}); p != "" || err != nil {
+		return fw.Bad(key, buf.String(), "%s: writing and re-reading the code points U+%04X..U+%04X failed: %v %s", format, block*256, block*256+255, err, p)
+	}
+	if len(got.Items) != len(want) {
+		return fw.Bad(key, buf.String(), "%s: %d cues holding the code points U+%04X..U+%04X written, %d read back", format, len(want), block*256, block*256+255, len(got.Items))
+	}
+	for i, it := range got.Items {
+		if t := itemText(it); t != want[i] {
+			return fw.Bad(key, buf.String(), "%s: text made of the code points U+%04X.. does not survive writing and reading: %s", format, block*256+i*32, firstDiff(fmt.Sprintf("%+q", want[i]), fmt.Sprintf("%+q", t)))
+		}
+	}
+	c.Count("unicode_blocks_round_tripped", 1)
+	c.Feature("unicode sweep")
+	return fw.OK(key, fmt.Sprintf("%s U+%04X..U+%04X", format, block*256, block*256+255))
 }
 
 // listSize draws a list length: mostly small (0..small), now and then long, now and then right at the sizes where a
